@@ -119,3 +119,14 @@ def programs(runner, points):
     for p, pr in zip(points, progs):
         pr.meta = p.meta
     return progs
+
+
+def real_programs(runner, tier):
+    """The build's own translation units (tests and benchmarks) parsed with the build's flags: every instantiation the shipped
+    suite creates is analysed too (thorough tier only)."""
+    if tier != 'thorough':
+        return []
+    progs = runner.programs(gen.real_tu_units())
+    for p in progs:
+        p.meta = {'real': True}
+    return progs
